@@ -9,7 +9,8 @@ git apply --check $D
 git apply $D
 export GOFLAGS=-mod=mod GOPROXY=off GOSUMDB=off
 go build ./... 
-if python3 /verif/tools/baseline.py /repo; then
+/verif/tools/extsuite.sh /repo /tmp/ext-now.txt >/dev/null || true
+if python3 /verif/tools/baseline.py /repo && diff -q /verif/tools/ext-baseline.txt /tmp/ext-now.txt; then
   git add -A && git commit -q -F $M && git log --oneline | head -1
 else
   echo "BASELINE FAILED — reverting"; git checkout -q -- . ; git clean -fdq; exit 1
